@@ -127,6 +127,60 @@ def show_state(typ, snap):
     return '%s;%s' % (typ, ','.join('%s:%d' % (k, snap[k]) for k in sorted(snap)))
 
 
+def _augmented_assignment(ctx, out, rng):
+    """`p.field += [e]` and `p.field = p.field` after an in-place change: an attribute assignment whose value is the very
+    object the attribute already holds.  It is validated like any other: accepted iff the elements now are all strings or
+    all rules / attribute dictionaries, and afterwards the type is the one the elements imply."""
+    for _ in range(ctx.budget(60, 2000)):
+        kinds = pick(rng, ['empty', 'str', 'rule'])
+        mk = {'empty': lambda: [], 'str': lambda: ['a'], 'rule': lambda: [Eq(1)]}[kinds]
+        try:
+            p = Policy(pick(rng, [1, 'u']), subjects=mk(), resources=mk(), actions=mk())
+        except Exception:
+            continue
+        hist = ['Policy(subjects=%r, resources=%r, actions=%r)' % (p.subjects, p.resources, p.actions)]
+        for _ in range(rng.randint(1, 4)):
+            fld = pick(rng, FIELDS)
+            e = pick(rng, ['x', Eq(2), {'k': Eq(1)}, 5])
+            how = pick(rng, ['+=', 'append-then-reassign'])
+            before_mixed = implied_type(p) == 'mixed'
+            try:
+                if how == '+=':
+                    cur = getattr(p, fld)
+                    cur += [e]
+                    setattr(p, fld, cur)             # what `p.<fld> += [e]` does
+                else:
+                    getattr(p, fld).append(e)
+                    setattr(p, fld, getattr(p, fld))
+                st = 'accepted'
+            except PolicyCreationError:
+                st = 'rejected'
+            except Exception as ex:
+                st = 'raised %s' % type(ex).__name__
+            hist.append('%s %s %r -> %s' % (fld, how, e, st))
+            out.evaluations += 1
+            out.count('augmented-assignment:' + st.split(' ')[0])
+            want = implied_type(p)
+            prob = None
+            if st == 'accepted' and (want == 'mixed' or any(not isinstance(x, (str, dict, Rule)) for x in getattr(p, fld))):
+                prob = 'the assignment was accepted although the elements now are mixed or ill-typed'
+            elif st == 'accepted' and p.type != want:
+                prob = 'after the accepted assignment the type is %r, the elements imply %r' % (p.type, want)
+            elif st == 'rejected' and want != 'mixed' and not before_mixed and \
+                    all(isinstance(x, (str, dict, Rule)) for x in getattr(p, fld)):
+                prob = 'a coherent definition was rejected'
+            elif st.startswith('raised'):
+                prob = 'the assignment raised something else than PolicyCreationError'
+            if prob:
+                f = Failure('oracle', {'history': hist}, st, None, prob, 'Vakt.C10.history_inv / type_meaning', size=len(hist))
+                f.signature = 'augmented-assignment'
+                out.failures.append(f)
+                return
+            if st != 'accepted':
+                break                     # (the list was changed in place before the assignment was refused: start afresh)
+        out.nontriv('aug ' + ' | '.join(hist))
+
+
 def run(ctx):
     out = Outcome()
     rng = ctx.rng
@@ -218,6 +272,7 @@ def run(ctx):
             impl = ' | '.join(parts)
         lines.append(line)
         meta.append((desc_case, impl, problems, len(step_ids)))
+    _augmented_assignment(ctx, out, rng)
     model = ctx.driver.run(lines) if ctx.driver else [None] * len(lines)
     for line, (desc_case, impl, problems, nsteps), m in zip(lines, meta, model):
         if m == 'bad-op':
